@@ -1,5 +1,5 @@
 (* Single entry point of the executable model: [dispatch (SL [SI code; payload])]. *)
-From MD Require Import Base.Py Base.Sx Run.RunRuler Run.RunInstance Run.RunWorld.
+From MD Require Import Base.Py Base.Sx Run.RunRuler Run.RunInstance Run.RunWorld Run.RunStream.
 
 Definition dispatch (s : sx) : sx :=
   let payload := sx_nth s 1%nat in
@@ -9,5 +9,13 @@ Definition dispatch (s : sx) : sx :=
   | 12 => run_inst_case payload
   | 13 => run_world_case payload
   | 15 => run_conc_case payload
+  | 20 => run_render payload
+  | 21 => run_dict payload
+  | 22 => run_tree payload
+  | 23 => run_normalize payload
+  | 24 => run_text_join payload
+  | 25 => run_replacements payload
+  | 26 => run_smartquotes payload
+  | 27 => run_strfn payload
   | _ => SL [SI (-1)]
   end.
